@@ -99,9 +99,10 @@ type Eval struct {
 	rootKey  string
 	nact     int
 	siteCnt  map[string]int
-	knownRefs []string
-	knownArrs []string
 	allocs   []string
+	curSt    *State // state being evaluated (allocation watermark, reference existence)
+	allowedAll map[string]bool     // root modifies: whole components
+	allowedIdx map[string][]string // root modifies: single locations per component
 	safety   []string // props to tag safety obligations with (nil: none)
 	muTags   map[string]int
 	entry    *State
@@ -274,25 +275,34 @@ func (e *Eval) store(st *State, p Val, t types.Type, v string) {
 	e.c.Set(st, comp, sto(e.c.Get(st, comp), p.T, v))
 }
 
+// Allocation watermark: object identities are integers; everything that
+// exists in a state is <= that state's $top, a fresh object is > $top.
+func (e *Eval) top(st *State) string {
+	e.c.DeclComp("$top", "Int")
+	return e.c.Get(st, "$top")
+}
+
 func (e *Eval) freshRef(prefix string) string {
+	st := e.curSt
 	r := e.c.Fresh(prefix, "Int")
-	e.c.Assert("(> " + r + " 0)")
-	for _, a := range e.allocs {
-		e.c.Assert("(not (= " + r + " " + a + "))")
-	}
-	for _, a := range e.knownRefs {
-		e.c.Assert("(not (= " + r + " " + a + "))")
-	}
-	for _, a := range e.knownArrs {
-		e.c.Assert("(not (= " + r + " " + a + "))")
-	}
+	e.c.Assert("(> " + r + " " + e.top(st) + ")")
+	e.c.Set(st, "$top", r)
 	e.allocs = append(e.allocs, r)
-	e.c.freshAllocs = append(e.c.freshAllocs, freshAlloc{r, e.c.Mark()})
 	return r
 }
 
+// bumpTop: a callee may have allocated objects.
+func (e *Eval) bumpTop(st *State) (string, string) {
+	old := e.top(st)
+	nt := e.c.Fresh("$top@call", "Int")
+	e.c.Assert("(>= " + nt + " " + old + ")")
+	st.m["$top"] = nt
+	return old, nt
+}
+
+// noteVal: a reference obtained from the current state exists in it.
 func (e *Eval) noteVal(t types.Type, term string) {
-	if term == "" {
+	if term == "" || e.curSt == nil {
 		return
 	}
 	switch t.Underlying().(type) {
@@ -300,25 +310,33 @@ func (e *Eval) noteVal(t types.Type, term string) {
 		if !strings.HasPrefix(term, "|") && !strings.HasPrefix(term, "(") {
 			return
 		}
-		for _, k := range e.knownRefs {
-			if k == term {
-				return
-			}
-		}
-		for _, k := range e.allocs {
-			if k == term {
-				return
-			}
-		}
-		e.knownRefs = append(e.knownRefs, term)
+		e.c.Assert("(<= " + term + " " + e.top(e.curSt) + ")")
 	case *types.Slice:
-		a := "(s.arr " + term + ")"
-		for _, k := range e.knownArrs {
-			if k == a {
-				return
-			}
-		}
-		e.knownArrs = append(e.knownArrs, a)
+		e.c.Assert("(<= (s.arr " + term + ") " + e.top(e.curSt) + ")")
+	case *types.Interface:
+		// pointer payloads of interface values exist as well
+		e.c.Assert("(<= (i.val " + term + ") " + e.top(e.curSt) + ")")
+	}
+}
+
+// closure: every reference stored in component comp (as it is in st) exists.
+func (e *Eval) closureAxiom(comp, term, top string) string {
+	kind, ok := e.c.ptrComps[comp]
+	if !ok {
+		return ""
+	}
+	if kind == "field" {
+		return fmt.Sprintf("(forall ((x Int)) (! (<= (select %s x) %s) :pattern ((select %s x))))", term, top, term)
+	}
+	ks := strings.TrimPrefix(kind, "map:")
+	return fmt.Sprintf("(forall ((m Int) (k %s)) (! (<= (select (select %s m) k) %s) :pattern ((select (select %s m) k))))", ks, term, top, term)
+}
+
+// havocComp havocs a component; references in the new value exist in st.
+func (e *Eval) havocComp(st *State, comp string) {
+	e.c.Havoc(st, comp)
+	if ax := e.closureAxiom(comp, e.c.Get(st, comp), e.top(st)); ax != "" {
+		e.c.Assert(ax)
 	}
 }
 
@@ -515,6 +533,7 @@ type loopState struct {
 	measure string
 	spec    *LoopSpec
 	phis    []*ssa.Phi
+	framed  []string
 }
 
 // evalFunc symbolically executes fn from state st under reach.
@@ -663,13 +682,13 @@ func (e *Eval) evalBlocks(fr *Frame, order []*ssa.BasicBlock, entry *ssa.BasicBl
 }
 
 type snapshot struct {
-	body, obls, allocs, refs, arrs, defers, normals, panics, unwound, unsup, calls int
+	body, obls, allocs, defers, normals, panics, unwound, unsup, calls int
 	site                                                                           map[string]int
 	vals                                                                           map[ssa.Value]Val
 }
 
 func (e *Eval) snap(fr *Frame) *snapshot {
-	s := &snapshot{body: len(e.c.body), obls: len(e.obls), allocs: len(e.allocs), refs: len(e.knownRefs), arrs: len(e.knownArrs),
+	s := &snapshot{body: len(e.c.body), obls: len(e.obls), allocs: len(e.allocs),
 		defers: len(fr.defers), normals: len(fr.normals), panics: len(fr.panics), unwound: len(fr.unwound), unsup: len(e.c.unsupported), calls: len(e.callLog),
 		site: map[string]int{}, vals: map[ssa.Value]Val{}}
 	for k, v := range e.siteCnt {
@@ -685,8 +704,6 @@ func (e *Eval) restore(fr *Frame, s *snapshot) {
 	e.c.body = e.c.body[:s.body]
 	e.obls = e.obls[:s.obls]
 	e.allocs = e.allocs[:s.allocs]
-	e.knownRefs = e.knownRefs[:s.refs]
-	e.knownArrs = e.knownArrs[:s.arrs]
 	fr.defers = fr.defers[:s.defers]
 	fr.normals = fr.normals[:s.normals]
 	fr.panics = fr.panics[:s.panics]
@@ -732,16 +749,39 @@ func (e *Eval) loopHeader(fr *Frame, b *ssa.BasicBlock, li *loopInfo, s *State, 
 		comps = append(comps, comp)
 	}
 	sort.Strings(comps)
+	e.curSt = s
+	preTop := e.top(s)
+	// the loop may allocate
+	if written["$top"] || written["*"] {
+		nt := c.Fresh("$top@loop", "Int")
+		c.Assert("(>= " + nt + " " + preTop + ")")
+		s.m["$top"] = nt
+	}
+	var framed []string
 	for _, comp := range comps {
 		if comp == "*" {
 			e.havocAll(s)
 			continue
 		}
+		if comp == "$top" {
+			continue
+		}
 		if strings.HasPrefix(comp, "L.") && !cellLive(comp, s) {
 			continue
 		}
-		c.Havoc(s, comp)
+		// loop frame: objects that existed at function entry and are not named
+		// by the modifies clause keep their entry value
+		if fr == e.root && e.frameable(comp) {
+			g := e.frameFormula(comp, c.Get(ls.pre, comp), true)
+			e.oblige(fmt.Sprintf("loop#%d/frame-init/%s", li.ord, comp), "loop-frame", allProps(e.rootC), cur, g, "loop frame holds on entry: "+comp, e.rootC.Where)
+			framed = append(framed, comp)
+		}
+		e.havocComp(s, comp)
 	}
+	for _, comp := range framed {
+		c.Assert(implies(cur, e.frameFormula(comp, c.Get(s, comp), false)))
+	}
+	ls.framed = framed
 	for _, phi := range phis {
 		fr.vals[phi] = e.havocVal(fr.prefix+phi.Name()+":"+phi.Comment, phi.Type(), cur)
 	}
@@ -811,6 +851,9 @@ func (e *Eval) loopBackEdge(fr *Frame, from, header *ssa.BasicBlock, st *State, 
 			continue
 		}
 		e.oblige(fmt.Sprintf("loop#%d/preserved/%s", ls.li.ord, clauseLabel(cl, ls.spec.Invariants)), "loop-preserved", cl.Props, cond, env.evalGoal(ex), cl.Text, cl.Where)
+	}
+	for _, comp := range ls.framed {
+		e.oblige(fmt.Sprintf("loop#%d/frame-preserved/%s", ls.li.ord, comp), "loop-frame", allProps(e.rootC), cond, e.frameFormula(comp, c.Get(st, comp), true), "loop body changes only what modifies names (or objects allocated by the call): "+comp, e.rootC.Where)
 	}
 	if ls.spec.Decreases != nil && ls.measure != "" {
 		if ex, err := ls.spec.Decreases.Parse(); err == nil {
@@ -950,4 +993,35 @@ func (e *Eval) runDefers(fr *Frame, st *State, cond string, idx int, panicking b
 		}
 	}
 	return cond, st
+}
+
+// frameable: heap components indexed by object identity for which the root
+// contract does not allow arbitrary change.
+func (e *Eval) frameable(comp string) bool {
+	if e.rootC == nil || e.allowedAll == nil || e.allowedAll[comp] || e.allowedAll["*"] {
+		return false
+	}
+	if strings.HasPrefix(comp, "L.") || strings.HasPrefix(comp, "$") || strings.HasPrefix(comp, "G.") {
+		return false
+	}
+	return strings.HasPrefix(e.c.compSort[comp], "(Array Int ")
+}
+
+// frameFormula: forall x. x existed at entry and is not an allowed location
+// ==> term[x] == entry[x]. As a goal the quantifier is a fresh constant.
+func (e *Eval) frameFormula(comp, term string, goal bool) string {
+	c := e.c
+	x := "x"
+	if goal {
+		x = c.Fresh("sk.frame", "Int")
+	}
+	conds := []string{"(<= " + x + " " + c.entryName("$top") + ")"}
+	for _, idx := range e.allowedIdx[comp] {
+		conds = append(conds, "(not (= "+x+" "+idx+"))")
+	}
+	body := implies(and(conds...), eq(sel(term, x), sel(c.entryName(comp), x)))
+	if goal {
+		return body
+	}
+	return fmt.Sprintf("(forall ((x Int)) (! %s :pattern ((select %s x))))", body, term)
 }
